@@ -112,6 +112,9 @@ func (c *L2) lockCall(label string, call func() (bool, sop.UUID, error)) (bool, 
 		crash()
 	case Pause:
 		p.pause()
+	case PauseFail:
+		p.pause()
+		return false, sop.NilUUID, ErrInjected
 	}
 	ok, id, err := call()
 	switch act {
